@@ -152,6 +152,8 @@ impl Worker for ScanWithConfig {
     }
     printer.after_print()?;
     self.trace.print()?;
+    #[cfg(ast_grep_verif)]
+    crate::verif::yield_point("errcnt-load", Path::new(""));
     let error_count = self.error_count.load(Ordering::Acquire);
     if error_count > 0 {
       Err(anyhow::anyhow!(EC::DiagnosticError(error_count)))
@@ -197,6 +199,8 @@ impl PathWorker for ScanWithConfig {
     processor: &P::Processor,
   ) -> Result<Vec<P::Processed>> {
     let items = filter_file_rule(path, &self.configs, &self.trace)?;
+    #[cfg(ast_grep_verif)]
+    crate::verif::yield_point("parsed", path);
     let mut error_count = 0usize;
     let mut ret = vec![];
     for grep in items {
@@ -220,6 +224,8 @@ impl PathWorker for ScanWithConfig {
         ret.push(processed);
       }
     }
+    #[cfg(ast_grep_verif)]
+    crate::verif::yield_point("errcnt-add", path);
     self.error_count.fetch_add(error_count, Ordering::AcqRel);
     Ok(ret)
   }
